@@ -26,6 +26,7 @@ decoding, so nothing in a message can influence it; and the extension maps form 
 code only ever inserts into them (PeerId only at those verified sites, with the connection's id), never
 extends/removes/clears/clones them, and the `extensions` fields are mutably reachable only through the two
 accessor methods - nothing can overwrite the authenticated id after it was attached.
+The certificate-to-PeerId extraction answers only with the key parsed from the certificate handed in and touches no shared state (no memo written from unverified input).
 """
 TRUSTED = ["rustls/webpki/ring/x509-parser cryptography and DER parsing", "quinn::Connection::peer_identity returns the chain rustls verified",
            "rustls rejects an empty client certificate chain when client auth is mandatory"]
